@@ -336,3 +336,20 @@ func init() {
 	}
 	_ = anyT
 }
+
+// ---- sync.Pool -------------------------------------------------------------------
+func init() {
+	intrinsics["(*sync.Pool).Get"] = func(m *Machine, th *Thread, fn *ssa.Function, a []Value, site ssa.Instruction) Value {
+		p := a[0].(*Ptr)
+		// struct Pool { noCopy; local; localSize; victim; victimSize; New func() any }
+		st := m.peek(p).(*StructV)
+		nf, _ := st.F[len(st.F)-1].(*FuncV)
+		if nf == nil {
+			return nilIface
+		}
+		return m.callFn(th, nf, nil, site)
+	}
+	intrinsics["(*sync.Pool).Put"] = func(m *Machine, th *Thread, fn *ssa.Function, a []Value, site ssa.Instruction) Value {
+		return nil
+	}
+}
